@@ -48,6 +48,7 @@ type advIncarnation struct {
 // runAdvScenario runs the real Advertiser.Run in a bubble and renders one Corr.AdvRun case per incarnation.
 func runAdvScenario(t *testing.T, sc advScenario) []verifh.Case {
 	var incs []advIncarnation
+	var staleWrites []string
 	if sc.Burst {
 		defer runtime.GOMAXPROCS(runtime.GOMAXPROCS(1))
 	}
@@ -103,6 +104,17 @@ func runAdvScenario(t *testing.T, sc advScenario) []verifh.Case {
 		}
 		time.Sleep(time.Until(start.Add(time.Duration(sc.Horizon) - 1)))
 		closeInc(t00 + sc.Horizon)
+		// a reinitialized advertiser must be silent on its previous connection
+		if len(incs) > 1 {
+			v.mu.Lock()
+			old := v.conns[0]
+			v.mu.Unlock()
+			for _, w := range old.snapshot() {
+				if w.Begin >= incs[1].t0 {
+					staleWrites = append(staleWrites, fmt.Sprintf("%s at +%.3fs", w.Dst, float64(w.Begin-t00)/1e9))
+				}
+			}
+		}
 		cancel()
 		if err := <-done; err != nil {
 			t.Errorf("%s: Run returned %v", sc.ID, err)
@@ -155,8 +167,13 @@ func runAdvScenario(t *testing.T, sc advScenario) []verifh.Case {
 			id = fmt.Sprintf("%s#%d", sc.ID, k)
 			tags = append(tags, fmt.Sprintf("incarnation:%d", k))
 		}
+		viol := ""
+		if k == 0 && len(staleWrites) > 0 {
+			viol = fmt.Sprintf("transmissions on the previous connection after the reinitialization: %v", staleWrites)
+		}
 		cases = append(cases, verifh.Case{
-			ID: id,
+			ImplViolation: viol,
+			ID:            id,
 			Coq: verifh.App("mkRun", verifh.B(sc.UnicastOnly), verifh.Z(int64(sc.Min)), verifh.Z(int64(sc.Max)), verifh.Z(inc.t0),
 				zs(loopDraws), verifh.List(evs), verifh.Z(inc.horizon), verifh.List(os),
 				verifh.Z(int64(inc.uni)), verifh.Z(int64(inc.multi)), verifh.Z(int64(inc.rsCnt))),
